@@ -48,7 +48,7 @@ var (
 // Points is the number of yield points passed by any goroutine since the process started.
 func Points() int64 { return points.Load() }
 
-func goid() int64 {
+func slowGoid() int64 {
 	var buf [64]byte
 	n := runtime.Stack(buf[:], false)
 	// "goroutine 123 [running]:..."
